@@ -340,6 +340,45 @@ pub fn run(tier: &str, seed: u64) -> i32 {
         judge,
         |_, rep| rep.label("same_holder_nested_rule"),
     );
+    // curated rules: case twins / cast twins in both orders, and key-order twins of growing size
+    {
+        let negate = |text: &str| -> String {
+            text.lines()
+                .map(|l| match l.strip_prefix("  condition: ") {
+                    Some(c) => format!("  condition: not ({c})"),
+                    None => l.to_string(),
+                })
+                .collect::<Vec<_>>()
+                .join("\n")
+                + "\n"
+        };
+        let mut curated: Vec<(String, Vec<crate::model::DObj>, &'static str)> = vec![];
+        for (a, b, docs) in gen::twin_rules() {
+            curated.push((a, docs.clone(), "case_or_cast_twin_rule"));
+            curated.push((b, docs, "case_or_cast_twin_rule"));
+        }
+        for (t, docs) in gen::order_twin_rules() {
+            curated.push((t, docs, "key_order_twin_rule"));
+        }
+        let subs: Vec<Report> = par_run(|w, n| {
+            let mut sub = report.sub();
+            for (i, (text, docs, label)) in curated.iter().enumerate() {
+                if i % n != w {
+                    continue;
+                }
+                let mut c = Case::new("c02.verdict");
+                c.rules = vec![text.clone(), negate(text)];
+                c.docs = docs.clone();
+                let out = judge(&c);
+                sub.label(label);
+                sub.record(&c, out);
+            }
+            sub
+        });
+        for s in subs {
+            report.merge(s);
+        }
+    }
     report.finish()
 }
 
